@@ -21,7 +21,8 @@ def oldDivs (a : Int) (op : OP) : List Nat := ((divs op).filter (fun x => decide
 /-- `[start, start+size)` is a bin of the partition formed by the dividers of age `< a` -/
 def IsBinAt (a : Int) (op : OP) (start size : Nat) : Prop :=
   (start = 0 ∨ start ∈ oldDivs a op) ∧ start + size ∈ oldDivs a op ∧
-    ∀ d ∈ oldDivs a op, ¬ (start < d ∧ d < start + size)
+    (∀ d ∈ oldDivs a op, ¬ (start < d ∧ d < start + size)) ∧
+    ∀ t, t < start → t + 1 ∈ oldDivs a op
 
 theorem filter_filter_of_imp {α : Type} (p q : α → Bool) (l : List α) (h : ∀ x, p x = true → q x = true) :
     (l.filter q).filter p = l.filter p := by
@@ -223,16 +224,22 @@ theorem h2Best_size {op : OP} {ds ds' : Disjoint.DS} {cp ce : Nat} {b : Bool}
 /-- an additional invariant of the partition carried through the stepping loops (used for the certificate): `QA` holds at
 all times, `QN` after a `deage` and before every `splitBin`; `cb`, `fl` are `currentBest`, `firstLeaf` (unchanged by the
 stepping loops) -/
-structure StepQ (n : Nat) (nb : Nbrs) (cb fl : Sl Nat) (QA QN : OP → Prop) : Prop where
+structure StepQ (n : Nat) (nb : Nbrs) (cb fl : Sl Nat) (QA QN QS : OP → Prop) : Prop where
   na : ∀ op, QN op → QA op
+  sa : ∀ op, QS op → QA op
   deage : ∀ op op', PartInv n op → AgeInv op → 0 < op.age → QA op → deage op = .ok op' → QN op'
-  split : ∀ op op' i w, PartInv n op → AgeInv op → i < n → NonSingleton op.binDividers.toList i → QN op →
-    splitBin nb cb fl op i = .ok (w, op') → (w = false → QN op') ∧ (w = true → QA op')
+  /-- `splitBin` is only ever called on a position of the first bin with at least two elements; `QS` holds after a
+  `splitBin` that has not reported "worse" (the state handed to the refinement) -/
+  split : ∀ op op' i w, PartInv n op → AgeInv op → i < n → NonSingleton op.binDividers.toList i →
+    (∀ t, t < binStartOf op.binDividers.toList i → t + 1 ∈ op.binDividers.toList) → QN op →
+    splitBin nb cb fl op i = .ok (w, op') → (w = false → QS op') ∧ (w = true → QA op')
 
-theorem StepQ.trivial (n : Nat) (nb : Nbrs) (cb fl : Sl Nat) : StepQ n nb cb fl (fun _ => True) (fun _ => True) :=
-  ⟨fun _ _ => True.intro, fun _ _ _ _ _ _ _ => True.intro, fun _ _ _ _ _ _ _ _ _ _ => ⟨fun _ => True.intro, fun _ => True.intro⟩⟩
+theorem StepQ.trivial (n : Nat) (nb : Nbrs) (cb fl : Sl Nat) :
+    StepQ n nb cb fl (fun _ => True) (fun _ => True) (fun _ => True) :=
+  ⟨fun _ _ => True.intro, fun _ _ => True.intro, fun _ _ _ _ _ _ _ => True.intro,
+    fun _ _ _ _ _ _ _ _ _ _ _ => ⟨fun _ => True.intro, fun _ => True.intro⟩⟩
 
-theorem maybeDeage_spec {n : Nat} {nb : Nbrs} {cb fl : Sl Nat} {QA QN : OP → Prop} (hq : StepQ n nb cb fl QA QN)
+theorem maybeDeage_spec {n : Nat} {nb : Nbrs} {cb fl : Sl Nat} {QA QN QS : OP → Prop} (hq : StepQ n nb cb fl QA QN QS)
     {s s' : LS} {lv : List (Nat × Nat)} {k : Nat} (hc : Core n s)
     (ht : TopOK s.op k s.path s.choices lv)
     (hage : s.op.age + (if s.skipDeage then 1 else 0) = s.path.length)
@@ -276,10 +283,30 @@ theorem top_isBin {n : Nat} {op : OP} (hp : PartInv n op) (ha : AgeInv op) {a : 
   have := oldDivs_all (a := a) hp.wfBd hp.wfAges hp.lenAges (by intro x hx; have := ha.le x hx; omega)
   unfold IsBinAt at hb
   rw [this] at hb
-  exact hb
+  exact ⟨hb.1, hb.2.1, hb.2.2.1⟩
+
+/-- … and all bins in front of it are singletons -/
+theorem top_firstBin {n : Nat} {op : OP} (hp : PartInv n op) (ha : AgeInv op) {a : Int} (hage : op.age + 1 = a)
+    {st sz : Nat} (hb : IsBinAt a op st sz) : ∀ t, t < st → t + 1 ∈ op.binDividers.toList := by
+  have := oldDivs_all (a := a) hp.wfBd hp.wfAges hp.lenAges (by intro x hx; have := ha.le x hx; omega)
+  unfold IsBinAt at hb
+  rw [this] at hb
+  exact hb.2.2.2
+
+/-- the start of the bin of a position inside a cell is at most the start of the cell -/
+theorem binStartOf_le_start {n : Nat} {op : OP} (hp : PartInv n op) {st sz i : Nat}
+    (hb : ∀ d ∈ op.binDividers.toList, ¬ (st < d ∧ d < st + sz)) (hi : i < n) (h2 : i < st + sz) :
+    binStartOf op.binDividers.toList i ≤ st := by
+  have hsd : op.binDividers.toList.Pairwise (· < ·) := (List.pairwise_cons.1 hp.sorted).2
+  have hbl : binIdx op.binDividers.toList i < op.binDividers.toList.length := binIdx_lt _ n i hp.last hi
+  have hle := binStartOf_le _ hsd i hbl
+  rcases List.mem_cons.1 (binStartOf_mem _ i hbl) with h0 | hm
+  · omega
+  · have := hb _ hm
+    omega
 
 set_option maxHeartbeats 400000 in
-theorem jLoop_spec {n : Nat} {nb : Nbrs} {cb fl : Sl Nat} {QA QN : OP → Prop} (hq : StepQ n nb cb fl QA QN) :
+theorem jLoop_spec {n : Nat} {nb : Nbrs} {cb fl : Sl Nat} {QA QN QS : OP → Prop} (hq : StepQ n nb cb fl QA QN QS) :
     ∀ (k : Nat) (s : LS) (lv : List (Nat × Nat)) (b : Bool) (s' : LS),
     Core n s → TopOK s.op k s.path s.choices lv →
     s.op.age + (if s.skipDeage then 1 else 0) = s.path.length →
@@ -289,7 +316,7 @@ theorem jLoop_spec {n : Nat} {nb : Nbrs} {cb fl : Sl Nat} {QA QN : OP → Prop} 
       (b = true → LevelsOK s'.op s'.path s'.choices lv ∧ s'.op.age = s'.path.length ∧ s'.skipDeage = false) ∧
       (b = false → TopOK s'.op 0 s'.path s'.choices lv ∧
         s'.op.age + (if s'.skipDeage then 1 else 0) = s'.path.length) ∧
-      (b = true → QN s'.op) ∧ (b = false → QA s'.op ∧ (s'.skipDeage = true → QN s'.op)) ∧
+      (b = true → QS s'.op) ∧ (b = false → QA s'.op ∧ (s'.skipDeage = true → QN s'.op)) ∧
       s'.bestOrbits.size = s.bestOrbits.size := by
   intro k
   induction k with
@@ -350,7 +377,7 @@ theorem jLoop_spec {n : Nat} {nb : Nbrs} {cb fl : Sl Nat} {QA QN : OP → Prop} 
                   (b = true → LevelsOK s'.op s'.path s'.choices ((st, sz) :: ls) ∧ s'.op.age = s'.path.length ∧ s'.skipDeage = false) ∧
                   (b = false → TopOK s'.op 0 s'.path s'.choices ((st, sz) :: ls) ∧
                     s'.op.age + (if s'.skipDeage then 1 else 0) = s'.path.length) ∧
-                  (b = true → QN s'.op) ∧ (b = false → QA s'.op ∧ (s'.skipDeage = true → QN s'.op)) ∧
+                  (b = true → QS s'.op) ∧ (b = false → QA s'.op ∧ (s'.skipDeage = true → QN s'.op)) ∧
                   s'.bestOrbits.size = s.bestOrbits.size := by
                 intro bo b s' hbo hj
                 have hfr : StepFrame s { s1 with path := p :: ps, choices := (c - 1) :: cs, skipDeage := true, bestOrbits := bo } := by
@@ -390,7 +417,11 @@ theorem jLoop_spec {n : Nat} {nb : Nbrs} {cb fl : Sl Nat} {QA QN : OP → Prop} 
                     simp only at h
                     obtain ⟨q1, q2, q3, q4, _⟩ := splitBin_inv c1.part c1.age hin hns hsp
                     have hsp' : splitBin nb cb fl s1.op (c - 1) = .ok (worse, op') := by rw [← hcb1, ← hfl1]; exact hsp
-                    obtain ⟨qn, qa⟩ := hq.split _ _ _ _ c1.part c1.age hin hns n1 hsp'
+                    have hfirst : ∀ t, t < binStartOf s1.op.binDividers.toList (c - 1) → t + 1 ∈ s1.op.binDividers.toList := by
+                      intro t ht
+                      have hle := binStartOf_le_start c1.part hbin.2.2 hin (show c - 1 < st + sz by omega)
+                      exact top_firstBin c1.part c1.age (a := (ps.length : Int) + 1) (by omega) tb t (by omega)
+                    obtain ⟨qn, qa⟩ := hq.split _ _ _ _ c1.part c1.age hin hns hfirst n1 hsp'
                     have hfr3 : StepFrame s { s1 with choices := (c - 1) :: cs, op := op', path := j :: ps, bestOrbits := bo } := by
                       unfold StepFrame at f1 ⊢; rw [f1]
                     have hfrm : ∀ a : Int, a ≤ s1.op.age + 1 → oldDivs a op' = oldDivs a s1.op :=
@@ -429,7 +460,7 @@ theorem LevelsOK_top {op : OP} {p : Nat} {ps choices : List Nat} {lv : List (Nat
   match choices, lv, h with
   | c :: cs, (st, sz) :: ls, h => simpa [LevelsOK, TopOK] using h
 
-theorem stepLoop_spec {n : Nat} {nb : Nbrs} {cb fl : Sl Nat} {QA QN : OP → Prop} (hq : StepQ n nb cb fl QA QN) :
+theorem stepLoop_spec {n : Nat} {nb : Nbrs} {cb fl : Sl Nat} {QA QN QS : OP → Prop} (hq : StepQ n nb cb fl QA QN QS) :
     ∀ (k : Nat) (s : LS) (lv : List (Nat × Nat)) (b : Bool) (s' : LS),
     Core n s → LevelsOK s.op s.path s.choices lv →
     s.op.age + (if s.skipDeage then 1 else 0) = s.path.length →
@@ -438,7 +469,7 @@ theorem stepLoop_spec {n : Nat} {nb : Nbrs} {cb fl : Sl Nat} {QA QN : OP → Pro
     ∃ lv', Core n s' ∧ StepFrame s s' ∧ LevelsOK s'.op s'.path s'.choices lv' ∧
       s'.op.age + (if s'.skipDeage then 1 else 0) = s'.path.length ∧
       (b = true → s'.skipDeage = false) ∧ (b = false → s'.path = []) ∧
-      (b = true → QN s'.op) ∧ QA s'.op ∧ s'.bestOrbits.size = s.bestOrbits.size := by
+      (b = true → QS s'.op) ∧ QA s'.op ∧ s'.bestOrbits.size = s.bestOrbits.size := by
   intro k
   induction k with
   | zero =>
@@ -472,7 +503,7 @@ theorem stepLoop_spec {n : Nat} {nb : Nbrs} {cb fl : Sl Nat} {QA QN : OP → Pro
           simp only at h
           cases h
           obtain ⟨a1, a2, a3⟩ := t1 rfl
-          exact ⟨lv, c1, f1, a1, by rw [a3]; simpa using a2, fun _ => a3, by simp, fun _ => n1 rfl, hq.na _ (n1 rfl), z1⟩
+          exact ⟨lv, c1, f1, a1, by rw [a3]; simpa using a2, fun _ => a3, by simp, fun _ => n1 rfl, hq.sa _ (n1 rfl), z1⟩
         | false =>
           simp only at h
           obtain ⟨t0, g0⟩ := e1 rfl
@@ -597,7 +628,7 @@ theorem innerNode_spec {n : Nat} {s s' : LS} {lv : List (Nat × Nat)} (hc : Core
       unfold IsBinAt
       rw [oldDivs_all hc.part.wfBd hc.part.wfAges hc.part.lenAges (by intro x hx; have := hc.age.le x hx; omega)]
       have hs' : s.op.binDividers.toList.Pairwise (· < ·) := (List.pairwise_cons.1 hc.part.sorted).2
-      refine ⟨?_, List.mem_of_getElem? g1, ?_⟩
+      refine ⟨?_, List.mem_of_getElem? g1, ?_, fun t ht => List.mem_of_getElem? (g4 t ht)⟩
       · by_cases h0 : i' = 0
         · exact Or.inl h0
         · right
@@ -695,7 +726,7 @@ theorem LevelsOK_drop {op : OP} : ∀ (k : Nat) (path choices : List Nat) (lv : 
       simp only [LevelsOK] at h
       exact ih ps cs ls h.2.2.2.2
 
-theorem deageTimes_spec {n : Nat} {nb : Nbrs} {cb fl : Sl Nat} {QA QN : OP → Prop} (hq : StepQ n nb cb fl QA QN) :
+theorem deageTimes_spec {n : Nat} {nb : Nbrs} {cb fl : Sl Nat} {QA QN QS : OP → Prop} (hq : StepQ n nb cb fl QA QN QS) :
     ∀ (k : Nat) (op op' : OP), PartInv n op → AgeInv op → (k : Int) ≤ op.age → QN op →
     deageTimes k op = .ok op' →
     PartInv n op' ∧ AgeInv op' ∧ op'.age = op.age - k ∧
@@ -741,7 +772,7 @@ theorem h1Index_spec (path : List Nat) (ref : Sl Nat) : ∀ (k i r : Nat), h1Ind
     · cases h
 
 /-- the frame of `leafNode`/`backJump` on the partition side: only `op`, `path`, `choices` change -/
-theorem backJump_spec {n : Nat} {nb : Nbrs} {cb fl : Sl Nat} {QA QN : OP → Prop} (hq : StepQ n nb cb fl QA QN)
+theorem backJump_spec {n : Nat} {nb : Nbrs} {cb fl : Sl Nat} {QA QN QS : OP → Prop} (hq : StepQ n nb cb fl QA QN QS)
     {s s' : LS} {lv : List (Nat × Nat)} {ref : Sl Nat} (hc : Core n s)
     (hl : LevelsOK s.op s.path s.choices lv) (hage : s.op.age = s.path.length) (hN : QN s.op)
     (h : backJump s ref = .ok s') :
